@@ -44,15 +44,43 @@ fn gen_text(r: &mut Prng, max_words: usize) -> String {
 }
 
 fn gen_count(r: &mut Prng, max: u32) -> String {
-    let v: u64 = match r.below(10) {
+    let v: u64 = match r.below(11) {
         0 => 0,
         1 => max as u64,
         2 => (max as u64).saturating_sub(1),
+        10 => *r.pick(&[255u64, 256, 65_535, 65_536, 16_777_215, 16_777_216, 2_147_483_647, 2_147_483_648, 4_294_967_295]),
         3..=6 => r.below(100),
         7 | 8 => r.below(100_000),
         _ => r.below(max as u64 + 1),
     };
     v.min(max as u64).to_string()
+}
+
+/// Decimal literal within a hair of the midpoint between two adjacent f32 values (17+ significant digits):
+/// the classic double-rounding test vector. `lo..hi` bounds the magnitude.
+pub fn midpoint_literal(r: &mut Prng, lo: f32, hi: f32) -> String {
+    let x = lo + (hi - lo) * (r.unit_f64() as f32);
+    let bits = x.to_bits();
+    let next = f32::from_bits(bits + 1);
+    // the midpoint of two adjacent f32 values is exactly representable as an f64
+    let mid = (x as f64 + next as f64) / 2.0;
+    let exact = format!("{:.60}", mid); // Rust prints the exact decimal expansion of the f64
+    let trimmed = exact.trim_end_matches('0').to_string();
+    if r.chance(1, 2) {
+        // a hair above the midpoint: must round up to `next`
+        format!("{}0000000001", trimmed)
+    } else {
+        // a hair below: lower the last non-zero digit by one and append 9s
+        let mut b = trimmed.into_bytes();
+        if let Some(last) = b.last_mut() {
+            if *last > b'0' && *last <= b'9' {
+                *last -= 1;
+            }
+        }
+        let mut t = String::from_utf8(b).unwrap();
+        t.push_str("9999999999");
+        t
+    }
 }
 
 fn gen_width(r: &mut Prng) -> usize {
@@ -208,8 +236,12 @@ pub fn gen_record(r: &mut Prng, format: Format, uniq: usize) -> Rec {
                 subset_syms(r, format.alphabet(), false)
             };
             let decimal = r.chance(1, 4);
+            let midpoints = decimal && r.chance(1, 3);
             for _ in 0..rec.syms.len() * width {
-                if decimal {
+                if midpoints && r.chance(1, 3) {
+                    let (lo, hi) = *r.pick(&[(0.0f32, 1.0f32), (1.0, 50.0), (16_777_000.0, 16_778_000.0), (0.5, 0.5001)]);
+                    rec.cells.push(midpoint_literal(r, lo, hi));
+                } else if decimal {
                     let whole = r.below(50);
                     let frac = *r.pick(&["0", "25", "5", "75", "125", "1", "333"]);
                     rec.cells.push(format!("{}.{}", whole, frac));
@@ -245,6 +277,18 @@ pub fn gen_record(r: &mut Prng, format: Format, uniq: usize) -> Rec {
                     };
                 }
             }
+            // adversarial literals: one cell just off an f32 midpoint, its neighbour chosen so that the
+            // column still sums to 1 within the reader's 0.01 tolerance
+            if k >= 2 && r.chance(1, 6) {
+                let p = r.usize_below(width);
+                let lit = midpoint_literal(r, 0.05, 0.9);
+                let v: f64 = lit.parse().unwrap();
+                rec.cells[p] = lit;
+                rec.cells[width + p] = format!("{:.4}", (1.0 - v).max(0.0));
+                for s in 2..k {
+                    rec.cells[s * width + p] = "0.000".to_string();
+                }
+            }
             rec.blank_after = match r.below(4) {
                 0 => 0,
                 1 | 2 => 1,
@@ -255,6 +299,27 @@ pub fn gen_record(r: &mut Prng, format: Format, uniq: usize) -> Rec {
     rec
 }
 
+/// A record tens of thousands of positions wide (its text exceeds 1 MiB), placed last or in the middle.
+pub fn gen_huge_file(r: &mut Prng, format: Format) -> FileModel {
+    let mut m = gen_file(r, format, 4);
+    let at = if r.chance(2, 3) { m.records.len() - 1 } else { r.usize_below(m.records.len()) };
+    let k = m.records[at].syms.len();
+    let width = match format.family() {
+        "transfac" => r.range(15_000, 25_000),
+        _ => r.range(40_000, 80_000),
+    };
+    let old_w = m.records[at].width;
+    let mut cells = Vec::with_capacity(k * width);
+    for s in 0..k {
+        for p in 0..width {
+            cells.push(m.records[at].cells[s * old_w + p % old_w].clone());
+        }
+    }
+    m.records[at].cells = cells;
+    m.records[at].width = width;
+    m
+}
+
 pub fn gen_file(r: &mut Prng, format: Format, max_records: usize) -> FileModel {
     let n = match r.below(10) {
         0 => 1,
@@ -262,9 +327,55 @@ pub fn gen_file(r: &mut Prng, format: Format, max_records: usize) -> FileModel {
         2 => r.heavy(3, max_records),
         _ => r.range(2, 8.min(max_records).max(2)),
     };
-    let mut records = Vec::with_capacity(n);
+    let mut records: Vec<Rec> = Vec::with_capacity(n);
     for i in 0..n {
         records.push(gen_record(r, format, i));
+    }
+    // some files are padded so that a record (or the whole file) ends exactly at, or one byte off, a
+    // power-of-two offset: buffer capacities of the readers and of BufReader are powers of two
+    if r.chance(1, 6) && format.family() != "uniprobe" {
+        let probe = FileModel { format, version: None, records: records.clone() };
+        let text = probe.render();
+        let target = *r.pick(&[512usize, 1024, 2048, 4096, 8192, 16384]) + *r.pick(&[0usize, 1, 2]) - 1;
+        // offsets at which records end
+        let mut ends = Vec::new();
+        let mut acc = 0usize;
+        for rec in &records {
+            let one = FileModel { format, version: None, records: vec![rec.clone()] }.render().len();
+            acc += one;
+            ends.push(acc);
+        }
+        let _ = text;
+        if let Some(k) = ends.iter().position(|&e| e < target && target - e < 200) {
+            // lengthen record k until it ends exactly at `target` (two correction rounds are enough)
+            let end_of = |recs: &Vec<Rec>| -> usize {
+                recs[..=k].iter().map(|rec| FileModel { format, version: None, records: vec![rec.clone()] }.render().len()).sum()
+            };
+            let base_desc = records[k].desc.clone();
+            let base_post = records[k].post.clone();
+            let mut fill = target - ends[k];
+            for _ in 0..3 {
+                let filler: String = std::iter::repeat('x').take(fill.max(1)).collect();
+                records[k].desc = base_desc.clone();
+                records[k].post = base_post.clone();
+                match format.family() {
+                    "transfac" => records[k].post.push(format!("CC  {}", filler)),
+                    _ => records[k].desc = Some(format!("{}{}", base_desc.clone().unwrap_or_else(|| "d".to_string()), filler)),
+                }
+                let e = end_of(&records);
+                if e == target {
+                    break;
+                }
+                if e > target {
+                    if e - target >= fill {
+                        break;
+                    }
+                    fill -= e - target;
+                } else {
+                    fill += target - e;
+                }
+            }
+        }
     }
     let version = if format.family() == "transfac" && r.chance(1, 2) {
         Some(format!("{} {}", gen_text(r, 4), r.below(100)))
